@@ -256,6 +256,7 @@ var c04Corpus = []c04Pinned{
 	{name: "jsonschema-root-self-ref", format: "jsonschema", text: `{"$schema":"http://json-schema.org/draft-07/schema#","$ref":"#"}`},
 	{name: "jsonschema-alias-cycle", format: "jsonschema", text: `{"$schema":"http://json-schema.org/draft-07/schema#","definitions":{"A":{"$ref":"#/definitions/B"},"B":{"$ref":"#/definitions/A"}},"type":"object","properties":{"f":{"$ref":"#/definitions/A"}},"required":["f"]}`},
 	{name: "jsonschema-const-non-string-discriminator", format: "jsonschema", text: `{"$schema":"http://json-schema.org/draft-07/schema#","definitions":{"A":{"type":"object","required":["kind"],"properties":{"kind":{"const":1}}},"B":{"type":"object","required":["kind"],"properties":{"kind":{"const":2}}}},"type":"object","properties":{"u":{"oneOf":[{"$ref":"#/definitions/A"},{"$ref":"#/definitions/B"}]}}}`},
+	{name: "jsonschema-discriminator-const-array", format: "jsonschema", text: `{"$schema":"http://json-schema.org/draft-07/schema#","definitions":{"A":{"type":"object","properties":{"kind":{"type":"string","const":[]}}},"B":{"type":"object","properties":{"kind":{"type":"string","const":"b"}}}},"type":"object","properties":{"u":{"oneOf":[{"$ref":"#/definitions/A"},{"$ref":"#/definitions/B"}]}}}`},
 	{name: "jsonschema-oneof-refs-to-scalars", format: "jsonschema", text: `{"$schema":"http://json-schema.org/draft-07/schema#","definitions":{"A":{"type":"string"},"B":{"type":"integer"}},"type":"object","properties":{"u":{"oneOf":[{"$ref":"#/definitions/A"},{"$ref":"#/definitions/B"}]}}}`},
 	{name: "jsonschema-empty-property-name", format: "jsonschema", text: `{"$schema":"http://json-schema.org/draft-07/schema#","type":"object","properties":{"":{"type":"string"},"-":{"type":"object","properties":{"":{"type":"integer"}}}}}`},
 	{name: "jsonschema-empty-definition-name", format: "jsonschema", text: `{"$schema":"http://json-schema.org/draft-07/schema#","definitions":{"":{"type":"object","properties":{"a":{"type":"string"}}}},"type":"object","properties":{"e":{"$ref":"#/definitions/"}}}`},
